@@ -493,6 +493,14 @@ def classify_recompute_failure(expr: str, exc: BaseException) -> str:
     in_call = {id(a) for n in ast.walk(tree) if isinstance(n, ast.Call) for a in n.args if isinstance(a, ast.Starred)}
     starred = [n for n in ast.walk(tree) if isinstance(n, ast.Starred)]
     unpack_dict = any(isinstance(n, ast.Dict) and any(k is None for k in n.keys) for n in ast.walk(tree))
+    if isinstance(cause, AttributeError) and "items" in str(cause) and any(
+            isinstance(n, ast.Call) and any(kw.arg is None for kw in n.keywords) for n in ast.walk(tree)):
+        # mechanism: ``f(**m)`` re-computed through m.items(), which the call protocol of Python does not ask for (keys + item access)
+        return "C07/double-star-argument-needs-more-than-the-mapping-protocol-of-calls"
+    if isinstance(cause, ValueError) and any(isinstance(n, ast.FormattedValue) and n.format_spec is not None and
+                                             any(isinstance(v, ast.FormattedValue) for v in n.format_spec.values) for n in ast.walk(tree)):
+        # mechanism: a computed format specification pasted into a format string (a brace in it is taken for a replacement field)
+        return "C07/computed-format-specification-re-parsed-as-a-format-string"
     if isinstance(cause, (NotImplementedError, AssertionError)) and (unpack_dict or any(id(n) not in in_call for n in starred)):
         return "C07/unpacking-in-display-unhandled"
     if starred and isinstance(cause, NotImplementedError):
